@@ -1298,9 +1298,46 @@ def fold_int_constants(prog: Program) -> int:
     return n
 
 
+def _positionalise_calls(prog: Program) -> int:
+    """`f(path=p, payload=x)` -> `f(p, x)` for calls that resolve to exactly one module-level repo function: keyword arguments that fill the
+    next positional parameters in order are written positionally.  Passing an argument by keyword or by position is the same call; rules
+    that read `the second argument of update_code / create_diff / match_files ...` then need not care how it was spelt."""
+    n = 0
+    for fn in list(prog.functions.values()):
+        r = None
+        for c in walk_no_nested(fn.node):
+            if not isinstance(c, ast.Call) or not c.keywords or any(k.arg is None for k in c.keywords) or any(isinstance(a, ast.Starred) for a in c.args):
+                continue
+            if not isinstance(c.func, (ast.Name, ast.Attribute)):
+                continue
+            r = r or Resolver(prog, fn)
+            try:
+                ts = r.resolve_call(c)
+            except Exception:
+                continue
+            if len(ts) != 1 or not isinstance(ts[0], FuncInfo) or ts[0].cls is not None or ts[0].parent is not None:
+                continue
+            a = ts[0].node.args
+            if a.vararg is not None or ts[0].node.decorator_list:
+                continue
+            pos = [x.arg for x in a.posonlyargs + a.args]
+            moved = False
+            while len(c.args) < len(pos):
+                nxt = pos[len(c.args)]
+                k = next((k for k in c.keywords if k.arg == nxt), None)
+                if k is None:
+                    break
+                c.args.append(k.value)
+                c.keywords.remove(k)
+                moved = True
+            n += moved
+    return n
+
+
 def inline_program(prog: Program) -> dict:
     """Bring every non-visitor function into helper-inlined normal form (in place). Returns a summary for evidence."""
     folded = fold_int_constants(prog)
+    _positionalise_calls(prog)
     inl = Inliner(prog)
     touched: set[str] = set()
     for _round in range(MAX_ROUNDS):
